@@ -168,3 +168,38 @@ TIMES = [0, 1, 999, 10 ** 12, 2 ** 53 - 1, 2 ** 53, 2 ** 53 + 1, 2 ** 63 - 1, 2 
          2 ** 64 + 1, 2 ** 127, 2 ** 128 - 1]
 
 RAW_METAS = [b"", b"\x00", b"\xff", bytes(range(256)), b"\xff" * 4096]
+
+
+def key_family():
+    """(a, b, c): a,b share index-v5/aa/bb; c shares only index-v5/aa with them."""
+    if "fam" in _coll:
+        return _coll["fam"]
+    a, b = sibling_keys(4, "k", 2)
+    ha = sha1hex(a)
+    i = 0
+    while True:
+        c = "c%d" % i
+        hc = sha1hex(c)
+        if hc[:2] == ha[:2] and hc[2:4] != ha[2:4]:
+            break
+        i += 1
+    _coll["fam"] = (a, b, c)
+    return _coll["fam"]
+
+
+def sibling_gen_values(algo="sha256", prefix_hex_len=4):
+    """Two (n, tag) data descriptors whose digests share content-v2/<algo>/aa/bb."""
+    import hashlib as _h
+    from .ref import gen
+    k = ("gv", algo, prefix_hex_len)
+    if k in _coll:
+        return _coll[k]
+    seen = {}
+    for n in range(1, 64):
+        for tag in range(256):
+            hx = _h.new(algo, gen(n, tag)).hexdigest()[:prefix_hex_len]
+            if hx in seen and seen[hx][0] != n:
+                _coll[k] = (seen[hx], (n, tag))
+                return _coll[k]
+            seen.setdefault(hx, (n, tag))
+    raise RuntimeError("no sibling values found")
